@@ -227,6 +227,66 @@ pub proof fn lemma_new_size<N, const K: usize>(a: Arena<N, K>, troot: Option<usi
         }
     }
 }
+// ---- the same count for the edge traversal: one edge per node below the start ----
+pub proof fn lemma_edges_count<N, const K: usize>(a: Arena<N, K>, h: Map<usize, nat>, d: Map<usize, nat>, e: EItem)
+    requires kids_ok(a), parents_ok(a), kids_unique(a), ranked(a, d), ranked_down(a, h), a.dom().contains(e.3)
+    ensures pre_edges(a, h, e).len() == sub_nodes(a, e.3).len()
+    decreases h[e.3], K + 1
+{
+    let i = e.3;
+    lemma_concat_edges_count(a, h, d, i, 0, (e.0 + 1) as usize);
+    lemma_c_sub_split(a, d, i);
+    assert(kids_nodes(a, i, 0).insert(i).len() == kids_nodes(a, i, 0).len() + 1);
+}
+pub proof fn lemma_concat_edges_count<N, const K: usize>(a: Arena<N, K>, h: Map<usize, nat>, d: Map<usize, nat>, i: usize, lo: int, dp: usize)
+    requires kids_ok(a), parents_ok(a), kids_unique(a), ranked(a, d), ranked_down(a, h), a.dom().contains(i), 0 <= lo <= K
+    ensures concat_edges(a, h, kid_edges(a[i].children, lo, dp, i), h[i]).len() == kids_nodes(a, i, lo).len()
+    decreases h[i], K - lo
+{
+    let ch = a[i].children;
+    if lo >= K {
+        assert(kid_edges(ch, lo, dp, i) =~= Seq::<EItem>::empty());
+        assert(kids_nodes(a, i, lo) =~= Set::<usize>::empty());
+    } else {
+        lemma_c_kids_split(a, d, i, lo);
+        lemma_concat_edges_count(a, h, d, i, lo + 1, dp);
+        if ch[lo] is Some {
+            let c = ch[lo].unwrap();
+            let item: EItem = (dp, i, lo as usize, c);
+            let rest = kid_edges(ch, lo + 1, dp, i);
+            let all = kid_edges(ch, lo, dp, i);
+            assert(all == seq![item] + rest);
+            assert(all[0] == item);
+            assert(all.drop_first() =~= rest);
+            assert(a.dom().contains(c) && h[c] < h[i]);
+            lemma_edges_count(a, h, d, item);
+            assert(concat_edges(a, h, all, h[i]) == pre_edges(a, h, item) + concat_edges(a, h, rest, h[i]));
+            vstd::set_lib::lemma_set_disjoint_lens(sub_nodes(a, c), kids_nodes(a, i, lo + 1));
+        }
+    }
+}
+// number of edges still to come right after DfsEdge::new
+pub proof fn lemma_new_edges_size<N, const K: usize>(a: Arena<N, K>, troot: Option<usize>, h: Map<usize, nat>, start: usize)
+    requires wf_at(a, troot), ranked_down(a, h), a.dom().contains(start)
+    ensures rem_e(a, h, kid_edges(a[start].children, 0, 1, start).reverse()).len() + 1 <= a.dom().len(),
+        troot == Some(start) ==> rem_e(a, h, kid_edges(a[start].children, 0, 1, start).reverse()).len() + 1 == a.dom().len(),
+{
+    let d = choose|d: Map<usize, nat>| ranked(a, d);
+    let xs = kid_edges(a[start].children, 0, 1, start);
+    lemma_kid_edges_below(a, h, start, 0, 1);
+    lemma_rem_e_push_rev(a, h, Seq::<EItem>::empty(), xs, h[start]);
+    assert(Seq::<EItem>::empty() + xs.reverse() =~= xs.reverse());
+    assert(rem_e(a, h, Seq::<EItem>::empty()).len() == 0);
+    lemma_concat_edges_count(a, h, d, start, 0, 1);
+    lemma_c_sub_split(a, d, start);
+    assert(kids_nodes(a, start, 0).insert(start).len() == kids_nodes(a, start, 0).len() + 1);
+    vstd::set_lib::lemma_len_subset(sub_nodes(a, start), a.dom());
+    if troot == Some(start) {
+        assert(sub_nodes(a, start) =~= a.dom()) by {
+            assert forall|x: usize| a.dom().contains(x) implies sub_nodes(a, start).contains(x) by { lemma_c_below_root(a, d, start, x); }
+        }
+    }
+}
 // ---- "exactly the nodes of the subtree, once each" ----
 pub open spec fn lists(xs: Seq<DfsNodeData>, x: usize) -> bool { exists|j: int| 0 <= j < xs.len() && (#[trigger] xs[j]).index == x }
 pub open spec fn no_dup(xs: Seq<DfsNodeData>) -> bool { forall|j1: int, j2: int| 0 <= j1 < j2 < xs.len() ==> (#[trigger] xs[j1]).index != (#[trigger] xs[j2]).index }
